@@ -20,7 +20,7 @@ META = {
                     "duration of the block; configured durations: measurement, CZ, H, X (anything else 0)",
                     "stim's parser is trusted"],
     "floors": {
-        "quick": {"circuits_dressed": 5500, "blocks_checked": 40000, "measurement_targets_checked": 40000, "blocks_longest_is_measurement": 3000,
+        "quick": {"index_maps_sharing_an_identifier": 800, "circuits_dressed": 5500, "blocks_checked": 40000, "measurement_targets_checked": 40000, "blocks_longest_is_measurement": 3000,
                   "per_qubit_settings_used": 10000, "t2_gt_2t1": 1000, "inputs_with_measurement_inside_repeat": 1500},
         "thorough": {"circuits_dressed": 55000, "blocks_checked": 400000, "measurement_targets_checked": 400000},
     },
@@ -51,8 +51,13 @@ def gen_case(rng: random.Random, cls: str = "") -> Dict[str, Any]:
                 "individual": individual,
                 "durations": {"duration_mz": rng.choice([0.0, 20e-9, 500e-9, 2e-6]), "duration_cz": rng.choice([20e-9, 60e-9, 1e-6]),
                               "duration_h": rng.choice([0.0, 20e-9, 40e-9]), "duration_x": rng.choice([20e-9, 1e-6])}}
-    mode = rng.randrange(3)
+    mode = rng.randrange(4)
     index_map = {} if mode == 0 else {str(i): names[i] for i in range(nq) if mode == 2 or rng.random() < 0.5}
+    if mode == 3:
+        # several circuit indices share one identifier (noise configured per qubit type): every one of them carries that identifier's
+        # settings (seeded change C14-r14: contains() answered from the inverted map, which keeps one index per identifier)
+        k = rng.choice([1, 2])
+        index_map = {str(i): names[i % k] for i in range(nq)}
     return {"source": source, "settings": settings, "index_map": index_map}
 
 
@@ -219,6 +224,8 @@ def run_shard(shard: Dict[str, Any]) -> Acc:
         case = gen_case(rng)
         acc.hist("source", "library" if "library" in case["source"] else "program")
         acc.hist("index_map", "empty" if not case["index_map"] else "mapped")
+        if len(set(case["index_map"].values())) < len(case["index_map"]):
+            acc.count("index_maps_sharing_an_identifier")
         common.guarded(acc, check_case, case, acc, case={"noise_case": {k: v for k, v in case.items() if not k.startswith("_")}})
         nontrivial = bool(case.pop("_nontrivial", False))
         acc.case(bp.phash(case), nontrivial, sample=case)
